@@ -284,9 +284,10 @@ def _job(args):
 def grid(tier):
     names = list(GRID_AXES)
     rows = pairwise(GRID_AXES, names)
+    rows += pairwise(GRID_AXES, list(reversed(names)))
     if tier == "thorough":
-        rows += pairwise(GRID_AXES, list(reversed(names)))
         rows += pairwise(GRID_AXES, names[7:] + names[:7])
+        rows += pairwise(GRID_AXES, names[13:] + names[:13])
     return rows
 
 
@@ -303,7 +304,7 @@ def benchmark_param_sets():
 
 def jobs_for(tier):
     jobs = []
-    seeds = (0, 1, 2) if tier == "quick" else (0, 1, 2, 3, 4)
+    seeds = (0, 1, 2, 3) if tier == "quick" else (0, 1, 2, 3, 4, 5, 6, 7)
     for row in grid(tier):
         for seed in seeds:
             p = realise(row, seed)
